@@ -551,11 +551,15 @@ int eng_conn(FILE *in, FILE *out)
             hbuf_free(&p);
             snprintf(res, sizeof(res), "rc %d", xmpp_conn_set_flags(g_conn, atol(tok[3])));
             g_type = tok[4][0];
-            if (tok[5][0] == '1') {
-                /* pretend a client certificate is configured (EXTERNAL becomes eligible) */
-                g_conn->tls_client_cert = strophe_strdup(g_ctx, "cert.pem");
-                g_conn->tls_client_key = strophe_strdup(g_ctx, "key.pem");
-            }
+            /* a client certificate is configured through the public call (EXTERNAL becomes eligible):
+             * 1 = PEM certificate + key, 2 = PKCS#12 file (certificate argument only),
+             * 3 = PKCS#12 in the deprecated position (key argument only) */
+            if (tok[5][0] == '1')
+                xmpp_conn_set_client_cert(g_conn, "cert.pem", "key.pem");
+            else if (tok[5][0] == '2')
+                xmpp_conn_set_client_cert(g_conn, "client.p12", NULL);
+            else if (tok[5][0] == '3')
+                xmpp_conn_set_client_cert(g_conn, NULL, "client.p12");
         } else if (!g_conn || g_released) {
             fprintf(out, "= bad-op\n");
             continue;
